@@ -366,7 +366,7 @@ func main() {
 	run.CheckFn = "Meta.check"
 	run.DiagFn = "Meta.diag"
 	run.CaseType = "Meta.case"
-	run.Prelude = "From Coq Require Import Uint63."
+	run.Prelude = "From Coq Require Import PrimInt63."
 	thorough := run.Tier == "thorough"
 	run.Rule = "accept: every run all 2^18 segment-length triples through Base.DecodeFromBytes (quick: 3 seeded pointer/reserved-bit " +
 		"variants each; thorough: all 256 pointer values each = all 2^26 meta values), compared entry by entry in Coq; " +
@@ -384,7 +384,7 @@ func main() {
 	// ---- 1. words
 	boundaryWords := []uint32{0, 0xFFFFFFFF, 0x00FC0000, 0xFF03FFFF, 0x80000000, 0x40000000, 0x3F000000,
 		0x0003F000, 0x00000FC0, 0x0000003F, 0x00001041, 0x01001041, 0xC1FFF000, 0x00040000, 0x00800000}
-	nw := run.Count(300, 20000)
+	nw := run.Count(200, 20000)
 	for i := 0; i < nw; i++ {
 		r := rng.Fork(uint64(i))
 		var w uint32
@@ -409,7 +409,7 @@ func main() {
 		})
 	}
 	// ---- 2. SerializeTo on arbitrary uint8 values
-	ne := run.Count(200, 10000)
+	ne := run.Count(150, 10000)
 	for i := 0; i < ne; i++ {
 		r := rng.Fork(uint64(100000 + i))
 		f := r.Bytes(5)
@@ -464,7 +464,7 @@ func main() {
 				seen[s] = true
 			}
 		}
-		ns := run.Count(700, 0)
+		ns := run.Count(260, 0)
 		r := rng.Fork(200000)
 		for len(shapes) < ns {
 			s := genShape(r)
@@ -537,13 +537,13 @@ func main() {
 		})
 	}
 	// ---- 6. paths
-	np := run.Count(500, 20000)
+	np := run.Count(300, 20000)
 	for i := 0; i < np; i++ {
 		r := rng.Fork(uint64(300000 + i))
 		jobs = append(jobs, func() { pathCase(run, r, i) })
 	}
 	// ---- 7. Decoded.Reverse with arbitrary uint8 pointers
-	nr := run.Count(150, 5000)
+	nr := run.Count(120, 5000)
 	for i := 0; i < nr; i++ {
 		r := rng.Fork(uint64(400000 + i))
 		jobs = append(jobs, func() { revU8Case(run, r) })
@@ -647,7 +647,10 @@ func main() {
 		run.Extra("meta_values_executed", 1<<26)
 		run.Exhaustive = false // shards also hold sampled streams; exhaustiveness is stated in spec/C19.json
 	}
-	run.ShardSize = (total + 15) / 16
+	run.ShardSize = (total + 7) / 8
+	if thorough {
+		run.ShardSize = (total + 31) / 32
+	}
 	if run.ShardSize < 50 {
 		run.ShardSize = 50
 	}
